@@ -309,11 +309,25 @@ def assemble_fn(unit, spec, idx, raw, counts):
         counts["R1"] = counts.get("R1", 0) + n1 + n2
     # proof hints (ghost code) spliced in front of a uniquely identified source fragment
     for ph in spec.get("proof", []):
-        frag = ph["before"]
-        n = text.count(frag)
-        if n != 1:
-            raise Undecided("anchor lost: proof-hint anchor %r occurs %d times in %s" % (frag, n, spec["path"]))
-        text = text.replace(frag, "proof { " + subst(defs, ph["text"]) + " }\n            " + frag)
+        # ghost code only: a `proof { .. }` block, or (ghost = true) a `let ghost x = ..;` snapshot; placed
+        # before or after a uniquely identified source fragment (whitespace-insensitive for `after`/`before_ws`)
+        frag = ph.get("before") or ph["after"]
+        pat = r"\s+".join(re.escape(w) for w in frag.split())
+        ms = list(re.finditer(pat, text))
+        if len(ms) != 1:
+            raise Undecided("anchor lost: proof-hint anchor %r occurs %d times in %s" % (frag, len(ms), spec["path"]))
+        body = subst(defs, ph["text"])
+        if ph.get("ghost"):
+            if not re.fullmatch(r"\s*(let ghost [^;]*;\s*)+", body):
+                raise Undecided("ghost hint of %s is not a list of `let ghost` statements" % spec["path"])
+            ins = body
+        else:
+            ins = "proof { " + body + " }"
+        a, b = ms[0].span()
+        if "before" in ph:
+            text = text[:a] + ins + "\n            " + text[a:]
+        else:
+            text = text[:b] + "\n            " + ins + text[b:]
         counts["proof_hints"] = counts.get("proof_hints", 0) + 1
     # declared textual substitutions (each must apply the stated number of times)
     for sub in spec.get("subst", []):
